@@ -9,7 +9,7 @@
    (always quoted) and in the denoted AST.  Witness values are pairwise distinct, so the
    replacement is well defined: a value is only replaced when the number of string atoms of
    the AST equal to it is the number of replaceable tokens carrying it.                   *)
-EXTENDS Gen_pairs, AstWalk
+EXTENDS Gen_pairs, AstWalk, Dict
 
 \* percent signs (format verbs), both quotes, backslashes (also last), newline, comment and
 \* separator characters, a dot, spaces, a digit first, a keyword, a parameter sign, non-ASCII
@@ -59,4 +59,26 @@ NStep == /\ ~done
               /\ \A s \in Values(st, "str") : IF Replaceable(st, "str", s) THEN \A nm \in TrickyStrings : EmitN(kind, Renamed(st, "str", s, nm)) ELSE TRUE
          /\ done' = TRUE /\ UNCHANGED <<kind, sub>>
 NSpec == Init /\ [][NStep]_vars
+
+\* The same with the SOURCE DICTIONARY (Dict.tla): every string constant of the tree under check as name and as string
+\* value, every small integer constant (and its neighbours) as count, in every position of the shortest statement of
+\* every kind (and of every statement of the single-slot kinds).  The count 0 is left out: a zero count is an absent
+\* field of the projected AST (Grammar.tla has its own LIMIT 0), and REPLICATION 0 is not in the language.
+DictStmts(k, s) == LET SL == Slots(k, s) IN
+                   IF Len(SL) = 1 THEN {[a |-> o.a, t |-> o.t] : o \in SL[1]}
+                   ELSE IF k = "alter" THEN Longest(k, s) ELSE Shortest(k, s) \cup (IF k \in {"selectone", "cq", "createuser"} THEN Longest(k, s) ELSE {})
+RenamedInt(st, s, w) ==
+  [a |-> SubstAtoms(st.a, s, w),
+   t |-> [i \in 1..Len(st.t) |-> IF st.t[i].t = "int" /\ st.t[i].s = s THEN [st.t[i] EXCEPT !.s = w] ELSE st.t[i]]]
+IntReplaceable(st, s) == LET I == Positions(st.t, "int", s) IN
+  /\ \A i \in I : ~(i > 1 /\ st.t[i - 1].s \in {"-", "+"})             \* a signed literal is one AST value
+  /\ CountAtoms(st.a, s) = Cardinality(I)
+EmitD(k, st) == CSVWrite("%1$s", <<ToJson([kind |-> k, sub |-> "dict", toks |-> st.t, want |-> st.a])>>, IOEnv.CASE_FILE)
+DStep == /\ ~done
+         /\ \A st \in DictStmts(kind, sub) :
+              /\ \A s \in Values(st, "id") : IF Replaceable(st, "id", s) THEN \A w \in DictStrs : EmitD(kind, Renamed(st, "id", s, w)) ELSE TRUE
+              /\ \A s \in Values(st, "str") : IF Replaceable(st, "str", s) THEN \A w \in DictStrs : EmitD(kind, Renamed(st, "str", s, w)) ELSE TRUE
+              /\ \A s \in Values(st, "int") : IF IntReplaceable(st, s) THEN \A w \in DictInts \ {"0"} : EmitD(kind, RenamedInt(st, s, w)) ELSE TRUE
+         /\ done' = TRUE /\ UNCHANGED <<kind, sub>>
+DSpec == Init /\ [][DStep]_vars
 =============================================================================
